@@ -12,7 +12,7 @@ from vlib import common, realrun, workload
 
 def make_case(r):
     kind = r.choice(['eq', 'let', 'dt', 'empty', 'general', 'fresh', 'fresh',
-                     'defs', 'lets'])
+                     'defs', 'lets', 'long'])
     extra = []
     if kind == 'eq':
         lines = ['(declare-const a Int)', '(declare-const b Int)',
@@ -42,6 +42,17 @@ def make_case(r):
                  '--replace-by-variable', '--substitute-children']
         if r.random() < 0.5:
             extra += ['--erase-node']
+    elif kind == 'long':
+        # the same long token at several places (a mangled name declared and
+        # used, a wide literal twice): what the parser hands over is already
+        # the input of the first round
+        nm = 'an_unusually_long_name_of_a_declared_constant_' + str(
+            r.randint(1000, 9999))
+        lit = '#b' + ''.join(r.choice('01') for _ in range(48))
+        lines = ['(set-logic QF_BV)',
+                 f'(declare-const {nm} (_ BitVec 48))',
+                 f'(assert (= {nm} {lit}))',
+                 f'(assert (bvult (bvadd {nm} {lit}) {nm}))', '(check-sat)']
     elif kind == 'lets':
         # many binders, parallel ddmin, a command that accepts nothing but
         # substitutions into let bodies (the text may only grow): the last
